@@ -13,10 +13,9 @@ Every statement quantifies over ALL histories: any sequence of stores, reads, de
 sleeper firings (`fire i` releases any pending sleeper that is due, so sleepers run arbitrarily late and in
 any order; `adv` is "timers on time"), any keys, values, TTLs (also ≤ 0), any sizes and limits.
 
-Two statements hold only outside an excluded class (the unchanged code violates them; the models are
-faithful): `caching_holds_partial` (F12a) and `throttle_holds_partial` (F12b), each next to the
-code-faithful statement that holds for all histories and a violation witness that replays on the real code
-(`corpus/C12/F12a.ops`, `corpus/C12/F12b.ops`).
+F12a (ambiguous cache key) and F12b (absolute Retry-After TTL from whole seconds) are repaired in /repo
+(`fixes/F12a.patch`, `fixes/F12b.patch`); `caching_holds` and `throttle_holds` are stated at full strength for
+all histories.  The old witnesses are regression cases (`corpus/C12/regress-F12a.ops`, `regress-F12b.ops`).
 -/
 set_option linter.unusedSectionVars false
 namespace LunarVerif.C12
@@ -183,40 +182,28 @@ variable {σ : Type} [DecidableEq σ]
 
 /-! ## caching remedy -/
 
-/-- Code-faithful statement, all histories: an early response is justified by an earlier storable response
-    for the same method, URL and JOINED parameter string, same payload, `t₀ ≤ t ≤ t₀ + TTL`;
-    held ≤ tracked ≤ MaxCacheSize at every probe. -/
-theorem caching_holds_modelkey (cfg : CCfg) (hmax : 0 ≤ cfg.maxBytes) (t0 : Int) (ops : List (POp σ)) :
-    cholds true cfg (crun cfg (Cache.init t0 false 0) ops) = true := by
+/-- Connection theorem, all histories: an early response for (method, URL, selected path-parameter values) is
+    justified by an earlier storable response for the SAME method, URL and selected values, same
+    status/body/headers, `t₀ ≤ t ≤ t₀ + TTL`; held ≤ tracked ≤ MaxCacheSize at every probe. -/
+theorem caching_holds (cfg : CCfg) (hmax : 0 ≤ cfg.maxBytes) (t0 : Int) (ops : List (POp σ)) :
+    cholds cfg (crun cfg (Cache.init t0 false 0) ops) = true := by
   have := crun_holdsRev cfg hmax ops (Cache.init t0 false 0) [] (cinv_init cfg t0) rfl
   simpa [cholds] using this
-
-/-- Full property (same method, URL and SELECTED PATH-PARAMETER VALUES), outside the excluded class of F12a:
-    no two operations of the history have equal joined strings for different selected parameters. -/
-theorem caching_holds_partial (cfg : CCfg) (hmax : 0 ≤ cfg.maxBytes) (t0 : Int) (ops : List (POp σ))
-    (hnc : noCollision ops = true) :
-    cholds false cfg (crun cfg (Cache.init t0 false 0) ops) = true := by
-  have h := caching_holds_modelkey cfg hmax t0 ops
-  simp only [cholds] at h ⊢
-  apply choldsRev_strict cfg _ _ h
-  rw [List.map_reverse, crun_ops]
-  intro a ha b hb
-  exact noColl_of_noCollision hnc a (List.mem_reverse.mp ha) b (List.mem_reverse.mp hb)
 
 /-- Readable corollary: a replay at `t` for (m, u, sel) ⇒ an earlier response record for the same
     (m, u, sel) with a body within MaxRecordSizeBytes, the same status/body/headers, and `t₀ ≤ t ≤ t₀ + TTL`. -/
 theorem caching_replay_only_same_key_and_fresh (cfg : CCfg) (hmax : 0 ≤ cfg.maxBytes) (t0 : Int)
-    (ops : List (POp σ)) (hnc : noCollision ops = true) (pre post : List (PRec σ)) (r : PRec σ)
-    (m u : σ) (sel : List (σ × σ)) (j : σ) (st : Nat) (body : σ) (tag ra : Option σ)
+    (ops : List (POp σ)) (pre post : List (PRec σ)) (r : PRec σ)
+    (m u : σ) (sel : List (σ × σ)) (st : Nat) (body : σ) (tag ra : Option σ)
     (hsplit : crun cfg (Cache.init t0 false 0) ops = pre ++ r :: post)
-    (hop : r.op = .req m u sel j) (hout : r.out = .early st body tag (.raw ra)) :
-    ∃ r0, r0 ∈ pre ∧ ∃ j0 rr bl sz, r0.op = .resp m u sel j0 rr bl sz ∧ bl ≤ cfg.maxRec ∧
+    (hop : r.op = .req m u sel) (hout : r.out = .early st body tag (.raw ra)) :
+    ∃ r0, r0 ∈ pre ∧ ∃ rr bl sz, r0.op = .resp m u sel rr bl sz ∧ bl ≤ cfg.maxRec ∧
       rr.status = st ∧ rr.body = body ∧ rr.tag = tag ∧ rr.ra = ra ∧ r0.t ≤ r.t ∧ r.t ≤ r0.t + cfg.ttl := by
-  have h := caching_holds_partial cfg hmax t0 ops hnc
+  have h := caching_holds cfg hmax t0 ops
   rw [cholds, hsplit] at h
   simp only [List.reverse_append, List.reverse_cons, List.append_assoc, List.singleton_append] at h
-  have hr : cRecOk false cfg r pre.reverse = true := by
-    have : ∀ (a b : List (PRec σ)), choldsRev false cfg (a ++ b) = true → choldsRev false cfg b = true := by
+  have hr : cRecOk cfg r pre.reverse = true := by
+    have : ∀ (a b : List (PRec σ)), choldsRev cfg (a ++ b) = true → choldsRev cfg b = true := by
       intro a b
       induction a with
       | nil => intro x; simpa using x
@@ -228,12 +215,12 @@ theorem caching_replay_only_same_key_and_fresh (cfg : CCfg) (hmax : 0 ≤ cfg.ma
   obtain ⟨r0, hm, hj⟩ := hr
   refine ⟨r0, List.mem_reverse.mp hm, ?_⟩
   cases hop0 : r0.op with
-  | resp m0 u0 sel0 j0 rr bl sz =>
-    simp only [cJustifies, hop0, Bool.false_eq_true, if_false, Bool.and_eq_true, decide_eq_true_eq] at hj
+  | resp m0 u0 sel0 rr bl sz =>
+    simp only [cJustifies, hop0, Bool.and_eq_true, decide_eq_true_eq] at hj
     obtain ⟨⟨⟨⟨⟨⟨⟨⟨⟨a1, a2⟩, a3⟩, a4⟩, a5⟩, a6⟩, a7⟩, a8⟩, a9⟩, a10⟩ := hj
     subst a1; subst a2; subst a3
-    exact ⟨j0, rr, bl, sz, rfl, a4, a5, a6, a7, a8, a9, a10⟩
-  | req _ _ _ _ => simp [cJustifies, hop0] at hj
+    exact ⟨rr, bl, sz, rfl, a4, a5, a6, a7, a8, a9, a10⟩
+  | req _ _ _ => simp [cJustifies, hop0] at hj
   | fire _ => simp [cJustifies, hop0] at hj
   | skip _ => simp [cJustifies, hop0] at hj
   | adv _ => simp [cJustifies, hop0] at hj
@@ -241,69 +228,63 @@ theorem caching_replay_only_same_key_and_fresh (cfg : CCfg) (hmax : 0 ≤ cfg.ma
 
 end
 
-/-- F12a: the full property fails on the unchanged code's behaviour.  Strings as numbers: method 1, URL 2;
-    the response is stored for the selection [(10, 20)] (think a = "x.b:y"), the request asks for
-    [(10, 21), (11, 22)] (a = "x", b = "y"); both join to the same string 99. -/
-theorem caching_violation_witness :
-    ∃ (cfg : CCfg) (t0 : Int) (ops : List (POp Nat)), 0 ≤ cfg.maxBytes ∧
-      cholds false cfg (crun cfg (Cache.init t0 false 0) ops) = false :=
-  ⟨⟨1000, 100, 100000⟩, 0,
-   [.resp 1 2 [(10, 20)] 99 ⟨5, 200, 6, none, none, none⟩ 3 120, .req 1 2 [(10, 21), (11, 22)] 99],
-   by decide, by decide⟩
-
-/-- non-vacuity of `caching_holds_partial`: a collision-free history with a replay, an expiry and a
-    refused oversize body. -/
-example : noCollision ([.resp 1 2 [(10, 20)] 90 ⟨5, 200, 6, none, none, none⟩ 3 120, .req 1 2 [(10, 20)] 90,
-      .skip 1001, .req 1 2 [(10, 20)] 90, .resp 1 2 [(10, 21)] 91 ⟨5, 200, 6, none, none, none⟩ 101 120,
-      .req 1 2 [(10, 21)] 91] : List (POp Nat)) = true
-    ∧ ((crun ⟨1000, 100, 100000⟩ (Cache.init 0 false 0)
-        ([.resp 1 2 [(10, 20)] 90 ⟨5, 200, 6, none, none, none⟩ 3 120, .req 1 2 [(10, 20)] 90,
-      .skip 1001, .req 1 2 [(10, 20)] 90, .resp 1 2 [(10, 21)] 91 ⟨5, 200, 6, none, none, none⟩ 101 120,
-      .req 1 2 [(10, 21)] 91] : List (POp Nat))).map fun r => match r.out with | .early .. => 1 | _ => 0)
-      = [0, 1, 0, 0, 0, 0] := by decide
+/-- non-vacuity: a replay, an expiry, a refused oversize body; and the repaired F12a shape — the response
+    stored for the selection [(10, 20)] is NOT replayed for [(10, 21), (11, 22)]. -/
+example : ((crun ⟨1000, 100, 100000⟩ (Cache.init 0 false 0)
+        ([.resp 1 2 [(10, 20)] ⟨5, 200, 6, none, none, none⟩ 3 120, .req 1 2 [(10, 20)],
+      .req 1 2 [(10, 21), (11, 22)],
+      .skip 1001, .req 1 2 [(10, 20)], .resp 1 2 [(10, 21)] ⟨5, 200, 6, none, none, none⟩ 101 120,
+      .req 1 2 [(10, 21)]] : List (POp Nat))).map fun r => match r.out with | .early .. => 1 | _ => 0)
+      = [0, 1, 0, 0, 0, 0, 0] := by decide
 
 section
 variable {σ : Type} [DecidableEq σ]
 
 /-! ## response-based throttling remedy -/
 
-/-- Code-faithful statement, all histories: an early response is justified by an earlier response for the
-    same (method, URL) with a relevant status and usable Retry-After, same status/body/tag, stored at
-    `t₀ ≤ t`; relative: `t − t₀ < value` and the replayed header is `value − (t − t₀)`; absolute:
-    `t ≤ value + (t₀ mod 1 s)` and the header is unchanged. -/
-theorem throttle_holds_slack (cfg : TCfg) (t0 : Int) (ops : List (POp σ)) :
-    tholds true cfg (trun cfg (Cache.init t0 false 0) ops) = true := by
-  have := trun_holdsRev cfg ops (Cache.init t0 false 0) [] (tinv_init cfg t0) rfl
+/-- Connection theorem, all histories, for every absolute-TTL function `f` with `AbsTtlOk f` (the float64
+    computation of the code is such a function as far as it never rounds a positive TTL upwards — assumption,
+    see notes; `absTtlExact` is one provably): an early response is justified by an earlier response for the
+    same (method, URL) with a relevant status and usable Retry-After, same status/body/tag, stored at `t₀ ≤ t`;
+    relative: `t − t₀ < value` and the replayed header is `value − (t − t₀)`; absolute: `t ≤ value`
+    (the provider's instant) and the header is unchanged. -/
+theorem throttle_holds (f : AbsTtl) (hf : AbsTtlOk f) (cfg : TCfg) (t0 : Int) (ops : List (POp σ)) :
+    tholds cfg (trun f cfg (Cache.init t0 false 0) ops) = true := by
+  have := trun_holdsRev f hf cfg ops (Cache.init t0 false 0) [] (tinv_init f cfg t0) rfl
   simpa [tholds] using this
 
-/-- Full property (absolute: replay only while `t ≤ value`, the provider's instant), outside the excluded
-    class of F12b: the type is not absolute, or every call happens on a whole second. -/
-theorem throttle_holds_partial (cfg : TCfg) (t0 : Int) (ops : List (POp σ))
-    (hal : secondAligned cfg (trun cfg (Cache.init t0 false 0) ops) = true) :
-    tholds false cfg (trun cfg (Cache.init t0 false 0) ops) = true := by
-  have h := throttle_holds_slack cfg t0 ops
-  simp only [tholds] at h ⊢
-  apply tholdsRev_strict cfg _ _ h
-  rcases secondAligned_prop hal with h1 | h1
-  · exact Or.inl h1
-  · exact Or.inr fun r hr => h1 r (List.mem_reverse.mp hr)
+/-- … in particular for exact arithmetic. -/
+theorem throttle_holds_exact (cfg : TCfg) (t0 : Int) (ops : List (POp σ)) :
+    tholds cfg (trun absTtlExact cfg (Cache.init t0 false 0) ops) = true :=
+  throttle_holds absTtlExact absTtlExact_ok cfg t0 ops
 
 /-- Relative Retry-After, all histories: a replay at `t` carries `original − elapsed` (> 0), where the original
     value `n` and the store instant `t₀` are those of an earlier relevant response for the same (method, URL);
     hence nothing is replayed once `elapsed ≥ original`. -/
-theorem retry_after_decrement (cfg : TCfg) (hrel : cfg.type = .rel) (t0 : Int) (ops : List (POp σ))
-    (pre post : List (PRec σ)) (r : PRec σ) (m u : σ) (sel : List (σ × σ)) (j : σ)
+theorem retry_after_decrement (f : AbsTtl) (cfg : TCfg) (hrel : cfg.type = .rel) (t0 : Int) (ops : List (POp σ))
+    (pre post : List (PRec σ)) (r : PRec σ) (m u : σ) (sel : List (σ × σ))
     (st : Nat) (body : σ) (tag : Option σ) (ra : RaOut σ)
-    (hsplit : trun cfg (Cache.init t0 false 0) ops = pre ++ r :: post)
-    (hop : r.op = .req m u sel j) (hout : r.out = .early st body tag ra) :
-    ∃ r0, r0 ∈ pre ∧ ∃ sel0 j0 rr bl sz n, r0.op = .resp m u sel0 j0 rr bl sz ∧
+    (hsplit : trun f cfg (Cache.init t0 false 0) ops = pre ++ r :: post)
+    (hop : r.op = .req m u sel) (hout : r.out = .early st body tag ra) :
+    ∃ r0, r0 ∈ pre ∧ ∃ sel0 rr bl sz n, r0.op = .resp m u sel0 rr bl sz ∧
       cfg.statuses.contains rr.status = true ∧ rr.status = st ∧ rr.body = body ∧ rr.tag = tag ∧
       rr.raNs = some n ∧ r0.t ≤ r.t ∧ r.t - r0.t < n ∧ ra = .ns (n - (r.t - r0.t)) := by
-  have h := throttle_holds_slack cfg t0 ops
-  rw [tholds, hsplit] at h
+  -- the relative type never consults `f`: run the same history with exact arithmetic
+  have hsame : ∀ (c : TCache σ) (op : POp σ), tstep f cfg c op = tstep absTtlExact cfg c op := by
+    intro c op
+    have httl : ∀ now, ttlOf f cfg now = ttlOf absTtlExact cfg now := by
+      intro now; funext n; simp [ttlOf, hrel]
+    cases op <;> simp [tstep, httl]
+  have hrun : ∀ (ops : List (POp σ)) (c : TCache σ), trun f cfg c ops = trun absTtlExact cfg c ops := by
+    intro ops
+    induction ops with
+    | nil => intro c; rfl
+    | cons op ops ih => intro c; simp only [trun, hsame, ih]
+  have h := throttle_holds_exact cfg t0 ops
+  rw [← hrun, tholds, hsplit] at h
   simp only [List.reverse_append, List.reverse_cons, List.append_assoc, List.singleton_append] at h
-  have hr : tRecOk true cfg r pre.reverse = true := by
-    have : ∀ (a b : List (PRec σ)), tholdsRev true cfg (a ++ b) = true → tholdsRev true cfg b = true := by
+  have hr : tRecOk cfg r pre.reverse = true := by
+    have : ∀ (a b : List (PRec σ)), tholdsRev cfg (a ++ b) = true → tholdsRev cfg b = true := by
       intro a b
       induction a with
       | nil => intro x; simpa using x
@@ -315,15 +296,15 @@ theorem retry_after_decrement (cfg : TCfg) (hrel : cfg.type = .rel) (t0 : Int) (
   obtain ⟨r0, hm, hj⟩ := hr
   refine ⟨r0, List.mem_reverse.mp hm, ?_⟩
   cases hop0 : r0.op with
-  | resp m0 u0 sel0 j0 rr bl sz =>
+  | resp m0 u0 sel0 rr bl sz =>
     cases hra : rr.raNs with
     | none => simp [tJustifies, hop0, hrel, hra] at hj
     | some n =>
       simp only [tJustifies, hop0, hrel, hra, Bool.and_eq_true, decide_eq_true_eq] at hj
       obtain ⟨⟨⟨⟨⟨⟨⟨a1, a2⟩, a3⟩, a4⟩, a5⟩, a6⟩, a7⟩, a8, a9⟩ := hj
       subst a1; subst a2
-      exact ⟨sel0, j0, rr, bl, sz, n, rfl, a3, a4, a5, a6, hra, a7, a8, a9⟩
-  | req _ _ _ _ => simp [tJustifies, hop0] at hj
+      exact ⟨sel0, rr, bl, sz, n, rfl, a3, a4, a5, a6, hra, a7, a8, a9⟩
+  | req _ _ _ => simp [tJustifies, hop0] at hj
   | fire _ => simp [tJustifies, hop0] at hj
   | skip _ => simp [tJustifies, hop0] at hj
   | adv _ => simp [tJustifies, hop0] at hj
@@ -331,21 +312,20 @@ theorem retry_after_decrement (cfg : TCfg) (hrel : cfg.type = .rel) (t0 : Int) (
 
 end
 
-/-- F12b: the full property fails on the unchanged code's behaviour: absolute Retry-After 1 s (10⁹ ns),
-    response stored at 0.5 s; the request at 1 s + 1 ns — after the provider's instant — is still throttled. -/
-theorem throttle_violation_witness :
-    ∃ (cfg : TCfg) (t0 : Int) (ops : List (POp Nat)),
-      tholds false cfg (trun cfg (Cache.init t0 false 0) ops) = false :=
-  ⟨⟨.abs, [429]⟩, 500000000,
-   [.resp 1 2 [] 0 ⟨5, 429, 6, none, some 7, some 1000000000⟩ 0 0, .skip 500000001, .req 1 2 [] 0],
-   by decide⟩
-
-/-- non-vacuity of `retry_after_decrement` / `throttle_holds_partial`: relative 2 s stored at 0.5 s; replay
-    with 2 s, with 1 ns left one ns before the end, nothing at the end. -/
-example : ((trun ⟨.rel, [429]⟩ (Cache.init 500000000 false 0)
-      ([.resp 1 2 [] 0 ⟨5, 429, 6, none, some 7, some 2000000000⟩ 0 0, .req 1 2 [] 0, .skip 1999999999,
-        .req 1 2 [] 0, .skip 1, .req 1 2 [] 0] : List (POp Nat))).map fun r =>
+/-- non-vacuity of `retry_after_decrement`: relative 2 s stored at 0.5 s; replay with 2 s, with 1 ns left one
+    ns before the end, nothing at the end. -/
+example : ((trun absTtlExact ⟨.rel, [429]⟩ (Cache.init 500000000 false 0)
+      ([.resp 1 2 [] ⟨5, 429, 6, none, some 7, some 2000000000⟩ 0 0, .req 1 2 [], .skip 1999999999,
+        .req 1 2 [], .skip 1, .req 1 2 []] : List (POp Nat))).map fun r =>
         match r.out with | .early _ _ _ (.ns n) => n | _ => 0)
       = [0, 2000000000, 0, 1, 0, 0] := by decide
+
+/-- non-vacuity of `throttle_holds`, absolute type (the repaired F12b shape): instant 1 s, stored at 0.5 s:
+    replayed at exactly 1 s, no longer at 1 s + 1 ns. -/
+example : ((trun absTtlExact ⟨.abs, [429]⟩ (Cache.init 500000000 false 0)
+      ([.resp 1 2 [] ⟨5, 429, 6, none, some 7, some 1000000000⟩ 0 0, .skip 500000000, .req 1 2 [],
+        .skip 1, .req 1 2 []] : List (POp Nat))).map fun r =>
+        match r.out with | .early .. => 1 | _ => 0)
+      = [0, 0, 1, 0, 0] := by decide
 
 end LunarVerif.C12
